@@ -1668,6 +1668,18 @@ impl World {
                     let got = obs_doc(&m);
                     if got != expect {
                         fails.push(("C10", format!("opening damaged storage ({}) yields neither an error nor the state of the intact items: {}", desc.join(", "), first_diff(&expect, &got))));
+                    } else {
+                        // ... and exactly the state of the intact, causally complete items (closure computed here,
+                        // not by the library's own dependency check)
+                        let closed = causally_complete(&intact);
+                        if closed.len() != intact.len() {
+                            *self.stats.entry("fault_breaks_causal_closure".into()).or_insert(0) += 1;
+                            let expect_c = strip_blocked(&fresh_obs(&closed));
+                            let got_c = strip_blocked(&got);
+                            if got_c != expect_c {
+                                fails.push(("C10", format!("opening damaged storage ({}) yields a state that is not derived from the causally complete items: {}", desc.join(", "), first_diff(&expect_c, &got_c))));
+                            }
+                        }
                     }
                 }
             }
@@ -2004,6 +2016,54 @@ fn collect_objects(v: &Value, out: &mut Vec<(String, String)>) {
 }
 
 /// drop blocks that are not applied from an observation (a block without its pack is held back: invisible)
+/// The causally complete part of a set of intact items, computed WITHOUT the library: a block stays only if it
+/// parses, every parent it names is a block that stays, and every pack it names is present.  (Blocks the library
+/// would refuse for other reasons stay: the result is only ever compared with the library's own view of it.)
+fn causally_complete(intact: &Items) -> Items {
+    let mut parents: BTreeMap<String, (Vec<String>, Vec<String>)> = BTreeMap::new();
+    for (k, v) in intact {
+        if let Some(id) = k.strip_suffix(".delta") {
+            if let Ok(Value::Object(o)) = serde_json::from_slice::<Value>(v) {
+                let strs = |key: &str| -> Option<Vec<String>> {
+                    match o.get(key) {
+                        None => Some(vec![]),
+                        Some(Value::Array(a)) => a.iter().map(|x| x.as_str().map(|s| s.to_string())).collect(),
+                        Some(_) => None,
+                    }
+                };
+                if let (Some(ps), Some(ks)) = (strs("p"), strs("k")) {
+                    parents.insert(id.to_string(), (ps, ks));
+                }
+            }
+        }
+    }
+    let mut keep: BTreeSet<String> = parents.keys().cloned().collect();
+    loop {
+        let drop: Vec<String> = keep
+            .iter()
+            .filter(|id| {
+                let (ps, ks) = &parents[*id];
+                ps.iter().any(|p| !keep.contains(p)) || ks.iter().any(|k| !intact.contains_key(&format!("{}.pack", k)))
+            })
+            .cloned()
+            .collect();
+        if drop.is_empty() {
+            break;
+        }
+        for d in drop {
+            keep.remove(&d);
+        }
+    }
+    intact
+        .iter()
+        .filter(|(k, _)| match k.strip_suffix(".delta") {
+            Some(id) => keep.contains(id),
+            None => true,
+        })
+        .map(|(k, v)| (k.clone(), v.clone()))
+        .collect()
+}
+
 fn strip_blocked(v: &Value) -> Value {
     let mut v = v.clone();
     if let Some(ds) = v.get_mut("deltas").and_then(|d| d.as_object_mut()) {
